@@ -430,3 +430,197 @@ def deep_resolve(expr: Optional[ast.AST], env: Dict[str, ast.AST], depth: int = 
             return self.visit(node.value)
 
     return _S().visit(e)
+
+
+# ------------------------------------------------------------------ E8 order lattice (list-valued expressions)
+def _defs_of(f: Func, name: str) -> List[Tuple[str, ast.AST, ast.AST]]:
+    """Definitions of local `name`: (kind, value expr, statement). kind: assign | unpack_star | unpack | for | append."""
+    out: List[Tuple[str, ast.AST, ast.AST]] = []
+    for n in own_nodes(f.node):
+        if isinstance(n, ast.Assign):
+            for t in n.targets:
+                if isinstance(t, ast.Name) and t.id == name:
+                    out.append(("assign", n.value, n))
+                elif isinstance(t, (ast.Tuple, ast.List)):
+                    for e in t.elts:
+                        if isinstance(e, ast.Starred) and isinstance(e.value, ast.Name) and e.value.id == name:
+                            out.append(("unpack_star", n.value, n))
+                        elif isinstance(e, ast.Name) and e.id == name:
+                            out.append(("unpack", n.value, n))
+        elif isinstance(n, ast.AnnAssign) and isinstance(n.target, ast.Name) and n.target.id == name and n.value is not None:
+            out.append(("assign", n.value, n))
+        elif isinstance(n, ast.NamedExpr) and isinstance(n.target, ast.Name) and n.target.id == name:
+            out.append(("assign", n.value, n))
+    return out
+
+
+def _mutations_of(f: Func, name: str) -> List[Tuple[str, ast.Call]]:
+    out = []
+    for n in own_nodes(f.node):
+        if isinstance(n, ast.Call) and isinstance(n.func, ast.Attribute) and isinstance(n.func.value, ast.Name) and n.func.value.id == name:
+            out.append((n.func.attr, n))
+    return out
+
+
+def _enclosing_for(node: ast.AST, f: Func) -> Optional[ast.For]:
+    p = getattr(node, "_parent", None)
+    while p is not None and p is not f.node:
+        if isinstance(p, ast.For):
+            return p
+        p = getattr(p, "_parent", None)
+    return None
+
+
+def order_of(ctx: Ctx, f: Func, expr: ast.AST, depth: int = 0, _seen: Optional[Set[str]] = None) -> Tuple[str, str]:  # noqa: C901
+    """(state, reason) with state in: 'ordered:<root param>', 'sorted', 'reversed', 'unordered', 'unknown'."""
+    _seen = _seen or set()
+    if depth > 30:
+        return "unknown", "too deep"
+    e = expr
+    if isinstance(e, (ast.List, ast.Tuple)):
+        return "self", "display (fixed sequence)"
+    if isinstance(e, ast.Name):
+        if e.id in _seen:
+            return "self", f"{e.id} (self reference)"
+        defs = _defs_of(f, e.id)
+        muts = _mutations_of(f, e.id)
+        if not defs and e.id in f.params:
+            return f"ordered:{e.id}", f"parameter {e.id}"
+        states: List[Tuple[str, str]] = []
+        for kind, val, st in defs:
+            if kind == "assign":
+                if isinstance(val, (ast.List,)) and not val.elts:
+                    continue  # empty accumulator, judged by its mutations
+                states.append(order_of(ctx, f, val, depth + 1, _seen | {e.id}))
+            elif kind == "unpack_star":
+                states.append(order_of(ctx, f, val, depth + 1, _seen | {e.id}))
+            else:
+                states.append(("unknown", "tuple unpack"))
+        for meth, call in muts:
+            if meth in ("append", "extend"):
+                loop = _enclosing_for(call, f)
+                if loop is None:
+                    states.append(("unknown", f"{meth} outside a loop"))
+                    continue
+                it = loop.iter
+                if isinstance(it, ast.Call) and isinstance(it.func, ast.Name) and it.func.id == "enumerate" and it.args:
+                    it = it.args[0]
+                states.append(order_of(ctx, f, it, depth + 1, _seen | {e.id}))
+            elif meth in ("insert",):
+                states.append(("unknown", "insert changes positions"))
+            elif meth in ("sort",):
+                states.append(("sorted", ".sort()"))
+            elif meth in ("reverse",):
+                states.append(("reversed", ".reverse()"))
+        states = [s for s in states if s[0] != "self"]
+        if not states:
+            if e.id in f.params:
+                return f"ordered:{e.id}", f"parameter {e.id}"
+            return "unknown", f"no definition of {e.id}"
+        if e.id in f.params:
+            states.append((f"ordered:{e.id}", f"parameter {e.id}"))
+        roots = {s for s, _ in states}
+        if len(roots) == 1:
+            return states[0]
+        bad = [s for s in states if not s[0].startswith("ordered")]
+        return bad[0] if bad else ("unknown", f"{e.id} mixes {sorted(roots)}")
+    if isinstance(e, ast.Attribute):
+        c = chain(e)
+        if c:
+            return f"ordered:{'.'.join(c)}", f"attribute {'.'.join(c)}"
+    if isinstance(e, ast.Subscript) and isinstance(e.slice, ast.Slice):
+        if e.slice.step is not None:
+            return "reversed", "extended slice"
+        return order_of(ctx, f, e.value, depth + 1, _seen)
+    if isinstance(e, (ast.ListComp, ast.GeneratorExp)):
+        if len(e.generators) != 1:
+            return "unknown", "nested comprehension"
+        return order_of(ctx, f, e.generators[0].iter, depth + 1, _seen)
+    if isinstance(e, (ast.SetComp, ast.Set)):
+        return "unordered", "set"
+    if isinstance(e, ast.BinOp) and isinstance(e.op, ast.Add):
+        a, b = order_of(ctx, f, e.left, depth + 1, _seen), order_of(ctx, f, e.right, depth + 1, _seen)
+        if a[0] == "self":
+            return b
+        if b[0] == "self":
+            return a
+        if a[0] == b[0] and a[0].startswith("ordered"):
+            return a
+        return ("unknown", "concatenation of different sources") if a[0].startswith("ordered") and b[0].startswith("ordered") else (a if not a[0].startswith("ordered") else b)
+    if isinstance(e, ast.Call):
+        fn = e.func
+        if isinstance(fn, ast.Name):
+            if fn.id == "sorted":
+                return "sorted", "sorted(...)"
+            if fn.id == "reversed":
+                return "reversed", "reversed(...)"
+            if fn.id in ("set", "frozenset"):
+                return "unordered", "set(...)"
+            if fn.id in ("list", "tuple", "iter", "enumerate") and e.args:
+                return order_of(ctx, f, e.args[0], depth + 1, _seen)
+        if isinstance(fn, ast.Attribute) and fn.attr in ("split", "splitlines", "rsplit"):
+            r = order_of(ctx, f, fn.value, depth + 1, _seen)
+            return (r[0], "split of " + r[1]) if r[0].startswith("ordered") else r
+        if isinstance(fn, ast.Attribute) and fn.attr == "copy":
+            return order_of(ctx, f, fn.value, depth + 1, _seen)
+        # package callee: judge its return expressions, then map the root parameter to the argument
+        for ed in ctx.cg.all_edges(f):
+            if ed.site is e and isinstance(ed.target, Func) and ed.kind == "call" and not ed.weak:
+                g = ed.target
+                rets = [n.value for n in own_nodes(g.node) if isinstance(n, ast.Return) and n.value is not None]
+                if not rets:
+                    continue
+                sts = [order_of(ctx, g, r, depth + 1) for r in rets]
+                roots = {s for s, _ in sts}
+                if len(roots) != 1:
+                    bad = [s for s in sts if not s[0].startswith("ordered")]
+                    return bad[0] if bad else ("unknown", f"{g.qualname} returns differently ordered values")
+                st, why = sts[0]
+                if st.startswith("ordered:"):
+                    root = st.split(":", 1)[1].split(".")[0]
+                    gp = g.params
+                    off = 1 if g.is_bound else 0
+                    arg = None
+                    if root in gp:
+                        i = gp.index(root) - off
+                        if 0 <= i < len(e.args):
+                            arg = e.args[i]
+                        for k in e.keywords:
+                            if k.arg == root:
+                                arg = k.value
+                    if arg is not None:
+                        r = order_of(ctx, f, arg, depth + 1, _seen)
+                        return (r[0], f"{g.qualname}({r[1]})")
+                    return "unknown", f"{g.qualname} returns a value ordered by {root}"
+                return st, f"{g.qualname}: {why}"
+    return "unknown", f"{snippet_(e)}"
+
+
+def snippet_(node: ast.AST, n: int = 80) -> str:
+    s = " ".join(src(node).split())
+    return s if len(s) <= n else s[: n - 3] + "..."
+
+
+def loop_body_paths(cfg: CFG, loop: Node, limit: int = 2000) -> List[List[Tuple[Node, str]]]:
+    """Paths from the first body node of `loop` back to the loop head or out of the function (one iteration)."""
+    starts = [s for lab, s in loop.succ if lab == "body"]
+    if not starts:
+        return []
+    out: List[List[Tuple[Node, str]]] = []
+    stack: List[Tuple[Node, List[Tuple[Node, str]], frozenset]] = [(starts[0], [], frozenset())]
+    while stack:
+        node, path, used = stack.pop()
+        if node is loop or node is cfg.exit or node is cfg.raise_exit:
+            out.append(path + [(node, "")])
+            if len(out) > limit:
+                break
+            continue
+        for lab, s in node.succ:
+            if lab == "exc":
+                # follow into handlers: an exception edge is a real way to leave the statement
+                pass
+            ekey = (node.id, lab, s.id)
+            if ekey in used:
+                continue
+            stack.append((s, path + [(node, lab)], used | {ekey}))
+    return out
